@@ -8,6 +8,7 @@ import (
 
 	"google.golang.org/grpc"
 	"google.golang.org/grpc/metadata"
+	"google.golang.org/grpc/status"
 	"google.golang.org/protobuf/proto"
 )
 
@@ -191,7 +192,7 @@ func (s *serverStream) SendMsg(m any) error {
 	s.sendHeaderIfNeeded()
 	select {
 	case <-s.ctx.Done():
-		return s.closeErrLocked()
+		return s.ctxErr()
 	case s.serverSend <- snapshot(m):
 		return nil
 	}
@@ -200,13 +201,20 @@ func (s *serverStream) SendMsg(m any) error {
 func (s *serverStream) RecvMsg(m any) error {
 	select {
 	case <-s.Context().Done():
-		return s.closeErrLocked()
+		return s.ctxErr()
 	case val, ok := <-s.clientSend:
 		if !ok {
 			return io.EOF
 		}
 		return permissiveProtoMerge(m.(proto.Message), val.(proto.Message))
 	}
+}
+
+// ctxErr is what the handler's SendMsg and RecvMsg return once the call's context has ended:
+// like gRPC a Canceled or DeadlineExceeded status, not io.EOF (which means the client half-closed):
+// a handler that returns the error it was given then ends the call as cancelled, not as a clean end of stream.
+func (s *serverStream) ctxErr() error {
+	return status.FromContextError(s.ctx.Err()).Err()
 }
 
 func (s *serverStream) sendHeaderIfNeeded() {
